@@ -72,3 +72,13 @@ Proof. exact rule_enum_value_perm. Qed.
 Theorem C06_invocation_order : forall bs bs', Permutation bs bs' -> NoDup (map fst (fb_defs (stream bs))) ->
   (rule_fb_call (stream bs) = [] <-> rule_fb_call (stream bs') = []).
 Proof. exact rule_fb_call_perm. Qed.
+
+(* a type or function block declared anywhere is visible everywhere: the type transformation gives the same answer (new
+   kinds / undeclared references, as multisets) for every order of the declarations and references *)
+Theorem C06_type_resolution_order : forall fs fs', Permutation fs fs' -> NoDup (map fst (decls fs)) -> no_rtodo (decls fs) fs ->
+  match xform_type_init fs, xform_type_init fs' with
+  | inl ks, inl ks' => Permutation ks ks'
+  | inr ds, inr ds' => Permutation ds ds'
+  | _, _ => False
+  end.
+Proof. exact xform_type_init_perm. Qed.
